@@ -50,7 +50,7 @@ type c19Worker struct {
 }
 
 func init() {
-	req := []string{"phase/cold-concurrent", "phase/warm-concurrent", "phase/sequential-replay", "phase/alt-memory-context", "rodata/protected", "tables/digest-stable", "corpus/digest-stable"}
+	req := []string{"phase/cold-concurrent", "phase/warm-concurrent", "phase/sequential-replay", "phase/alt-memory-context", "rodata/protected", "tables/digest-stable", "corpus/digest-stable", "arg/prefix-view(len<cap)"}
 	for _, n := range c19FnNames {
 		req = append(req, "overlapped/"+n)
 	}
@@ -138,7 +138,7 @@ func c19Concurrent(w *mon.W, cp *c19Corpus, sigs []*sigbits.SigBits, ar *c19Aren
 				if pr.timing {
 					t0 = int64(time.Since(base))
 				}
-				h := c19Exec(cp, sigs, cur, false)
+				h := c19Exec(cp, sigs, cur, nil)
 				if pr.timing {
 					t1 = int64(time.Since(base))
 				}
@@ -264,7 +264,7 @@ func c19Process(w *mon.W, _ int) {
 	seen := [fNFuncs]bool{}
 	for n := 0; n < 4000; n++ {
 		call := c19Gen(wr, cp, false)
-		c19Exec(cp, nil, call, false)
+		c19Exec(cp, nil, call, nil)
 		seen[call.fn] = true
 	}
 	sigs := make([]*sigbits.SigBits, len(cp.keyLists))
@@ -307,7 +307,7 @@ func c19Process(w *mon.W, _ int) {
 	if pr.rodata {
 		debug.SetPanicOnFault(true)
 	}
-	var calls, altCalls int64
+	var calls, altCalls, prefixCalls int64
 	perFn := [fNFuncs]int64{}
 	for phase, ws := range [][]*c19Worker{wa, wc} {
 		for g, wk := range ws {
@@ -320,19 +320,28 @@ func c19Process(w *mon.W, _ int) {
 				if int(rec.call.fn) == fSharedSigCountPrefixes {
 					ss = sigs
 				}
-				h := c19Exec(cp, ss, rec.call, false)
+				h := c19Exec(cp, ss, rec.call, nil)
 				calls++
 				perFn[rec.call.fn]++
+				if rec.call.m > 0 {
+					prefixCalls++
+				}
 				if h != rec.hash {
-					w.Fail("concurrent-result-differs-from-sequential/"+c19FnNames[rec.call.fn], mon.D{"function": c19FnNames[rec.call.fn], "args": []int32{rec.call.a, rec.call.b, rec.call.c},
+					w.Fail("concurrent-result-differs-from-sequential/"+c19FnNames[rec.call.fn], mon.D{"function": c19FnNames[rec.call.fn], "args": []int32{rec.call.a, rec.call.b, rec.call.c, rec.call.m},
 						"phase": phase, "goroutine": g, "call_no": k, "concurrent_hash": fmt.Sprintf("%016x", rec.hash), "sequential_hash": fmt.Sprintf("%016x", h)})
 					return
 				}
 				if k%3 == 0 {
-					ha := c19Exec(cp, ss, rec.call, true)
+					var guards c19Guards
+					ha := c19Exec(cp, ss, rec.call, &guards)
 					altCalls++
+					if !guards.ok() {
+						w.Fail("store-outside-len-of-argument/"+c19FnNames[rec.call.fn], mon.D{"function": c19FnNames[rec.call.fn], "args": []int32{rec.call.a, rec.call.b, rec.call.c, rec.call.m},
+							"what": "the poison placed before the argument or between its len and cap (or after it) was overwritten during the call"})
+						return
+					}
 					if ha != rec.hash {
-						w.Fail("result-depends-on-memory-context/"+c19FnNames[rec.call.fn], mon.D{"function": c19FnNames[rec.call.fn], "args": []int32{rec.call.a, rec.call.b, rec.call.c},
+						w.Fail("result-depends-on-memory-context/"+c19FnNames[rec.call.fn], mon.D{"function": c19FnNames[rec.call.fn], "args": []int32{rec.call.a, rec.call.b, rec.call.c, rec.call.m},
 							"what": "same logical arguments in a copy with other capacity/alignment/neighbouring bytes gave a different result",
 							"hash": fmt.Sprintf("%016x", rec.hash), "alt_hash": fmt.Sprintf("%016x", ha)})
 						return
@@ -349,6 +358,8 @@ func c19Process(w *mon.W, _ int) {
 	w.Eval(2*calls + altCalls) // concurrent execution + sequential replay + alternate context
 	w.Extra("concurrent_calls", calls)
 	w.Extra("alt_context_calls", altCalls)
+	w.Extra("calls_on_prefix_views_len_lt_cap", prefixCalls)
+	w.BucketN("arg/prefix-view(len<cap)", prefixCalls)
 	w.Extra("goroutines", int64(pr.G))
 	w.Extra("gomaxprocs", int64(pr.procs))
 
@@ -385,6 +396,12 @@ func c19Process(w *mon.W, _ int) {
 	w.Bucket("corpus/digest-stable")
 
 	// ---- what was actually concurrent (release flavour: timestamps were taken) --------------------
+	if pr.timing && pr.procs < 2 {
+		// a single CPU cannot run two calls at the same instant; overlap in time is then not a
+		// meaningful requirement (interleaving still happens at preemption points)
+		pr.timing = false
+		w.Bucket("single-cpu/no-overlap-accounting")
+	}
 	if pr.timing {
 		type iv struct {
 			t0, t1 int64
@@ -421,7 +438,7 @@ func c19Process(w *mon.W, _ int) {
 				active = append(active[:k], x)
 				if ov {
 					overlappedFn[x.call.fn]++
-					w.Distinct(gen.Hash64(uint64(x.call.fn), uint64(uint32(x.call.a)), uint64(uint32(x.call.b)), uint64(uint32(x.call.c))))
+					w.Distinct(gen.Hash64(uint64(x.call.fn), uint64(uint32(x.call.a)), uint64(uint32(x.call.b)), uint64(uint32(x.call.c)), uint64(uint32(x.call.m))))
 				}
 			}
 			w.Tick()
@@ -447,7 +464,7 @@ func c19Process(w *mon.W, _ int) {
 	w.Sample(func() interface{} {
 		var ex []mon.D
 		for _, rec := range wc[0].recs[:min(6, len(wc[0].recs))] {
-			ex = append(ex, mon.D{"function": c19FnNames[rec.call.fn], "args": []int32{rec.call.a, rec.call.b, rec.call.c}, "result_hash": fmt.Sprintf("%016x", rec.hash)})
+			ex = append(ex, mon.D{"function": c19FnNames[rec.call.fn], "args": []int32{rec.call.a, rec.call.b, rec.call.c, rec.call.m}, "result_hash": fmt.Sprintf("%016x", rec.hash)})
 		}
 		return mon.D{"flavour": w.Cfg.Flavour, "goroutines": pr.G, "GOMAXPROCS": pr.procs, "calls_per_goroutine_per_phase": pr.N, "corpus": cp.String(),
 			"first_calls_of_goroutine_0_in_warm_phase": ex}
